@@ -316,6 +316,12 @@ class MatEngine:
         names = callee.body.arg_names()
         ia, ib = names.index('transpose_a'), names.index('transpose_b')
         fa, fb = args[ia], args[ib]
+        # inside a body specialised to constant flags, a flag parameter passed on is that constant
+        spec = getattr(f, 'spec', None) or {}
+        if tag(fa) == 'arg' and fa[1] in spec:
+            fa = ('const', 'bool', bool(spec[fa[1]]))
+        if tag(fb) == 'arg' and fb[1] in spec:
+            fb = ('const', 'bool', bool(spec[fb[1]]))
         if tag(fa) != 'const' or tag(fb) != 'const':
             raise MatProblem('matmul called with non-constant transpose flags')
         if depth > 3:
